@@ -15,8 +15,8 @@ PLAN = dict(
                           "table sizes up to 1024 buckets; larger growth steps repeat the same code path with a different segment index"],
     floor=dict(quick=800, thorough=12000),
     tiers=dict(
-        quick=[det("rel", H, "cs-rel", 16, 150, 5, tso=True, time_cap=22),
-               det("dbg", H, "cs-dbg", 16, 70, 5, tso=True, time_cap=14),
+        quick=[det("rel", H, "cs-rel", 16, 300, 5, tso=True, time_cap=40),
+               det("dbg", H, "cs-dbg", 16, 120, 5, tso=True, time_cap=30),
                tsan("C10", 8, 240)],
         thorough=[det("rel", H, "cs-rel", 16, 1800, 6, tso=True, time_cap=280),
                   det("dbg", H, "cs-dbg", 16, 600, 6, tso=True, time_cap=160),
